@@ -214,7 +214,7 @@ CHECKS = {
         "units": [
             {"name": "netsim", "module": "harness", "pkg": "./checks/c17", "test": "TestC17", "tags": "verif",
              "quick": {"checks": 12, "shards": 16, "timeout": 900, "shrink": "10s"},
-             "thorough": {"checks": 250, "shards": 16, "timeout": 7200, "shrink": "60s"}},
+             "thorough": {"checks": 700, "shards": 16, "timeout": 7200, "shrink": "60s"}},
         ],
     },
     "C04": {
